@@ -249,6 +249,7 @@ def unit_histories(a):
 # ------------------------------------------------------------------ linear work on length-scaled adversarial families
 def family(name, n):
     F = "Feature: f\n Scenario: s\n  Given x\n"
+    S = ""
     if name == "tag-run-before-scenario":
         return F + " @t\n" * n + " Scenario: t\n"
     if name == "tag-run-before-examples":
@@ -282,6 +283,27 @@ def family(name, n):
         return F + "   |" + " c |" * n + "\n"
     if name == "tag-line-many-tags":
         return F + " " + "@t " * n + "\n Scenario: t\n"
+    # one long line whose repeated element is followed by something a whole-line pattern would fail on only at the very end
+    if name == "glued-tags-then-bare-at":
+        return F + " " + "@a" * n + " @\n Scenario: t\n"
+    if name == "glued-tags-then-word":
+        return F + " " + "@a" * n + " b\n Scenario: t\n"
+    if name == "spaced-tags-then-word":
+        return F + " " + "@a  " * n + "b @c\n Scenario: t\n"
+    if name == "title-many-colons":
+        return F + " Scenario" + ":" * n + " x" + " :" * n + "\n  Given x\n"
+    if name == "step-keyword-repeated":
+        return F + S + "  " + "Given " * n + "\n  " + "And" * n + "\n  " + "* " * n + "\n"
+    if name == "language-header-near-miss":
+        return "#" + " language" * n + "\n# language: " + "a-" * n + "!\n#language:" + " " * n + "\n" + F
+    if name == "quotes-and-backticks":
+        return F + S + "  Given x\n   " + '"' * (2 * n + 1) + "\n   " + "`" * n + '"' * n + "\n   " + '\\"' * n + "\n   " + '"' * (2 * n + 1) + "\n"
+    if name == "odd-backslashes-in-row":
+        return F + S + "  Given x\n   | " + "\\" * (2 * n + 1) + "\n   |" + "\\|" * n + "\n   | " + "\\" * (2 * n + 1) + "n |\n"
+    if name == "blanks-word-blanks":
+        return F + " " * n + "x" + " " * n + "\n" + "\t " * n + "@t" + " \t" * n + "\n" + S + " " * n + "Given" + " " * n + "y" + " " * n + "\n   |" + " " * n + "a" + " " * n + "|" + " " * n + "\n"
+    if name == "placeholder-brackets":
+        return F + " Scenario Outline: " + "<" * n + "a" + ">" * n + "\n  Given " + "<a" * n + ">\n  Examples:\n   | a | " + "<a>" * n + " |\n   | <a> | " + "<" * n + " |\n"
     if name == "tag-line-long-comment":
         return F + " @t #" + " x" * n + "\n Scenario: t\n"
     if name == "long-step-text":
@@ -298,7 +320,8 @@ def family(name, n):
 FAMILIES = ["tag-run-before-scenario", "tag-run-before-examples", "tag-run-before-rule", "tags-and-comments", "tag-garbage-alternating", "tag-run-no-follower",
             "scenarios-each-with-tag-run", "long-table", "long-docstring", "long-description", "examples-with-tags", "whitespace-tag-errors",
             "row-long-open-last-cell", "row-many-escapes", "row-many-cells", "tag-line-many-tags", "tag-line-long-comment", "long-step-text", "long-blank-line",
-            "language-header-long", "docstring-many-escapes"]
+            "language-header-long", "docstring-many-escapes", "glued-tags-then-bare-at", "glued-tags-then-word", "spaced-tags-then-word", "title-many-colons", "step-keyword-repeated",
+            "language-header-near-miss", "quotes-and-backticks", "odd-backslashes-in-row", "blanks-word-blanks", "placeholder-brackets"]
 
 
 def check_scaling(case, stats):
@@ -310,7 +333,7 @@ def check_scaling(case, stats):
         m = CountingMatcher("en", budget=K_LINEAR * (nlines + 1))
         p = gh.Parser(gh.AstBuilder(gh.IdGenerator()))
         try:
-            p.parse(text, m)
+            gh.Compiler().compile(dict(p.parse(text, m), uri="u"))
         except gh.ParserError:
             pass
         except BudgetExceeded:
